@@ -169,7 +169,7 @@ pub open spec fn step(s: Seq<u8>) -> Step {
 // ------------------------------------------------------------------------------------------
 // utils.rs: batch codec
 // ------------------------------------------------------------------------------------------
-//@fn protocol/src/utils.rs :: - :: encode_message_batch [props=C05 C03]
+//@fn protocol/src/utils.rs :: - :: encode_message_batch [props=C05 C03 C14]
     ensures
         r@ =~= enc_batch(batch@),                                                   // [C05.batch_wire_format]
 //@loop 1
@@ -192,7 +192,7 @@ pub open spec fn step(s: Seq<u8>) -> Step {
 
 //@rename protocol/src/utils.rs :: LEN_MARKER_SIZE => BATCH_LEN_MARKER_SIZE
 //@consts protocol/src/utils.rs
-//@fn protocol/src/utils.rs :: - :: decode_message_batch [props=C05 C06 C03] [noisolation]
+//@fn protocol/src/utils.rs :: - :: decode_message_batch [props=C05 C06 C03 C14] [noisolation]
     requires
         alloc_budget() == bytes@.len(),                                             // ghost: the only memory a decoder may ask for
     ensures
